@@ -1,16 +1,18 @@
 (* C17 - "History is a faithful, bounded log; queries and Export/Import mean
    what they say".  Property theorems over Model/History.v (pkg/history as of
-   eab91e0 "history FindLatest applies its state conditions"), stated with the
+   3ac5b4b "history FindLatest judges Activated / Deactivated on the transition itself"), stated with the
    predicates of Spec/C17.v.  Nothing but statements closed by [exact]. *)
 From Coq Require Import List NArith ZArith Bool Arith.
 From AMV Require Import Base.ListSet Model.History Spec.C17.
 From AMV Require Proofs.C17Proofs.
 Import ListNotations.
 
-(* records whose MTimeTracked has one entry per tracked state - what
-   TransitionEnd writes (theorem log_well_formed) *)
+(* records with one MTimeTracked and one MTimeTrackedDiff entry per tracked
+   state - what TransitionEnd writes, whatever the rotation did (theorem
+   log_well_formed); the in-process store has no other source of records *)
 Definition log_wf (c : hcfg) (db : list hrec) : Prop :=
-  Forall (fun r => length (r_tracked r) = length (c_tracked c)) db.
+  Forall (fun r => length (r_tracked r) = length (c_tracked c) /\
+                   length (r_tracked_diff r) = length (c_tracked c)) db.
 
 (* ---------------------------------------------------------------- NewMemory *)
 
@@ -106,16 +108,28 @@ Print Assumptions log_well_formed.
 
 (* ---------------------------------------------------------------- queries *)
 
-(* FindLatest never panics on a well-formed log (a state that is not tracked
-   would index MTimeTracked with -1: ValidateQuery rejects the query first).
-   Before eab91e0 a valid Inactive query panicked whenever the state's machine
-   index was >= the number of tracked states
-   (corpus/C17/find_latest_inactive_panics.json). *)
+(* FindLatest never panics on a well-formed log: a state that is not tracked
+   would index MTimeTracked with -1 (ValidateQuery rejects the query first),
+   and MTimeTrackedDiff is as long as MTimeTracked in every record this backend
+   stores (log_well_formed).  (Before eab91e0 a valid Inactive query panicked
+   whenever the state's machine index was >= the number of tracked states:
+   corpus/C17/find_latest_inactive_panics.json.) *)
 Theorem find_latest_never_panics :
   forall (c : hcfg) (db : list hrec) (limit : Z) (q : query),
     log_wf c db -> find_latest c db limit q <> FlPanic.
 Proof. exact C17Proofs.find_latest_never_panics_lemma. Qed.
 Print Assumptions find_latest_never_panics.
+
+(* the MTimeTrackedDiff half of log_wf is needed since 3ac5b4b: a store with a
+   record whose MTimeTrackedDiff is shorter than the tracked list (none is ever
+   produced: log_well_formed) would make an Activated query panic *)
+Theorem short_diff_panics :
+  exists (c : hcfg) (db : list hrec) (q : query),
+    validate c q = true /\
+    Forall (fun r => length (r_tracked r) = length (c_tracked c)) db /\
+    find_latest c db 0 q = FlPanic.
+Proof. exact C17Proofs.short_diff_panics_lemma. Qed.
+Print Assumptions short_diff_panics.
 
 (* answers are newest first, inside the log, and respect the limit *)
 Theorem newest_first :
@@ -126,24 +140,27 @@ Theorem newest_first :
 Proof. exact C17Proofs.newest_first_lemma. Qed.
 Print Assumptions newest_first.
 
-(* THE STATE CONDITIONS ARE APPLIED.  For every configuration, store, limit and
-   query: an invalid query is an error; otherwise the answer is exactly the
-   positions - newest first, cut at the limit - of the stored records that
-   satisfy all four state conditions and the time conditions:
-     Active      every listed state active in the record;
-     Activated   active in the record and (no older record or inactive in the
-                 record stored just before it, db[i-1]);
-     Inactive    every listed state inactive in the record;
-     Deactivated inactive and (no older record or active in db[i-1]).
-   (Before eab91e0 no state condition ever rejected a record:
-   corpus/C17/find_latest_state_filters_noop.json.) *)
+(* THE STATE CONDITIONS MEAN WHAT THE QUERY COMMENTS SAY.  For every
+   configuration, store, limit and query: an invalid query is an error;
+   otherwise the answer is exactly the positions - newest first, cut at the
+   limit - of the stored records that satisfy all four state conditions and
+   the time conditions, each record judged by itself:
+     Active      every listed state active after the transition;
+     Activated   active after it and flipped by it (odd MTimeTrackedDiff entry);
+     Inactive    every listed state inactive after the transition;
+     Deactivated inactive after it and flipped by it.
+   (Before eab91e0 no state condition ever rejected a record; before 3ac5b4b
+   Activated / Deactivated compared with the previous STORED record: the oldest
+   stored record passed for want of one, unrecorded transitions in between gave
+   wrong hits and misses - corpus/C17/find_latest_state_filters_noop.json,
+   deactivated_oldest_record.json, activated_after_rotation.json,
+   activated_unrecorded_between.json.) *)
 Theorem find_latest_state_conditions :
   forall (c : hcfg) (db : list hrec) (limit : Z) (q : query),
     log_wf c db ->
     find_latest c db limit q =
       if negb (validate c q) then FlErr
-      else FlOk (select_latest (fun r older => state_sat c q r older && time_cond_impl c q r)
-                               db limit).
+      else FlOk (filter_latest (fun r => state_sat c q r && time_cond_impl c q r) db limit).
 Proof. exact C17Proofs.find_latest_state_conditions_lemma. Qed.
 Print Assumptions find_latest_state_conditions.
 
@@ -154,9 +171,9 @@ Theorem find_latest_sound :
     log_wf c db -> find_latest c db limit q = FlOk idxs -> In i idxs ->
     exists r, nth_error db i = Some r /\
       forallb (st_active c r) (q_active q) = true /\
-      forallb (rel_activated c r (older_of db i)) (q_activated q) = true /\
+      forallb (st_activated c r) (q_activated q) = true /\
       forallb (st_inactive c r) (q_inactive q) = true /\
-      forallb (rel_deactivated c r (older_of db i)) (q_deactivated q) = true /\
+      forallb (st_deactivated c r) (q_deactivated q) = true /\
       time_cond_impl c q r = true.
 Proof. exact C17Proofs.find_latest_sound_lemma. Qed.
 Print Assumptions find_latest_sound.
@@ -168,93 +185,46 @@ Theorem find_latest_complete :
          (i : nat) (r : hrec),
     log_wf c db -> find_latest c db limit q = FlOk idxs ->
     nth_error db i = Some r ->
-    state_sat c q r (older_of db i) = true -> time_cond_impl c q r = true ->
+    state_sat c q r = true -> time_cond_impl c q r = true ->
     In i idxs \/
     ((0 < limit)%Z /\ Z.of_nat (length idxs) = limit /\ forall j, In j idxs -> i < j).
 Proof. exact C17Proofs.find_latest_complete_lemma. Qed.
 Print Assumptions find_latest_complete.
 
+(* what the conditions say in terms of the recorded transition ALONE, whatever
+   else is or is not in the store (rotation, Called/Changed lists, rejected
+   transitions): for the record r of transition tx and a tracked state s, with
+   b / a = s active before / after tx,
+     Active a, Inactive (not a), Activated (not b and a), Deactivated (b and not a).
+   In particular a Multi state re-entered in one transition (its tick moves by
+   2: active before and after) is Active and neither Activated nor Deactivated;
+   likewise a state the transition did not touch. *)
+Theorem conditions_judge_the_transition :
+  forall (c : hcfg) (txs : list htx) (r : hrec),
+    1 <= c_max c -> In r (run_log c txs) ->
+    exists tx, In tx txs /\ matches_spec c tx = true /\
+      forall s, is_tracked c s = true ->
+        let b := N.odd (tick (x_before tx) s) in
+        let a := N.odd (tick (x_after tx) s) in
+        st_active c r s = a /\ st_inactive c r s = negb a /\
+        st_activated c r s = negb b && a /\
+        st_deactivated c r s = b && negb a /\
+        (tick (x_after tx) s = tick (x_before tx) s + 2 ->
+         st_activated c r s = false /\ st_deactivated c r s = false)%N.
+Proof. exact C17Proofs.conditions_on_transition_lemma. Qed.
+Print Assumptions conditions_judge_the_transition.
+
 (* with scalar / wall-clock ranges and a machine-time range over at most one
    state, the time conditions are the specified ranges too: FindLatest returns
-   precisely the records satisfying the query *)
+   precisely the records satisfying the query - with or without state
+   conditions *)
 Theorem find_latest_full_spec :
   forall (c : hcfg) (db : list hrec) (limit : Z) (q : query),
     log_wf c db -> validate c q = true -> mtime_wf q = true ->
     length (t_mstates (q_start q)) <= 1 ->
-    find_latest c db limit q = FlOk (find_latest_spec_rel c db limit q).
+    find_latest c db limit q = FlOk (find_latest_spec c db limit q).
 Proof. exact C17Proofs.find_latest_full_spec_lemma. Qed.
 Print Assumptions find_latest_full_spec.
-
-(* FALSE of the model (and of the code): the same with Activated/Deactivated
-   read as the Query field comments put it ("activated / deactivated DURING
-   the transition", i.e. by the record's own MTimeTrackedDiff):
-     forall c db limit q, log_wf c db -> validate c q = true -> mtime_wf q = true ->
-       length (t_mstates (q_start q)) <= 1 ->
-       find_latest c db limit q = FlOk (find_latest_spec c db limit q).
-   (a) the oldest stored record has no predecessor: "inactive" is taken for
-   "deactivated" ("active" for "activated").  Add Sa; ...: the record of
-   Add Sa answers Deactivated:[Sc] although Sc was never active
-   (corpus/C17/deactivated_oldest_record.json; after a rotation the same for
-   Activated: corpus/C17/activated_after_rotation.json). *)
-Theorem find_latest_doc_refuted :
-  exists (c : hcfg) (txs : list htx) (q : query),
-    validate c q = true /\
-    find_latest c (run_log c txs) 0 q = FlOk [0] /\
-    find_latest_spec c (run_log c txs) 0 q = [].
-Proof. exact C17Proofs.find_latest_doc_refuted_lemma. Qed.
-Print Assumptions find_latest_doc_refuted.
-
-(* (b) the predecessor in the store need not be the previous transition:
-   Changed allow-list [Sb]; Add Sb (recorded), Add Sa (not recorded),
-   Remove Sb (recorded): the record of Remove Sb answers Activated:[Sa]
-   (corpus/C17/activated_unrecorded_between.json) *)
-Theorem find_latest_doc_refuted_unrecorded :
-  exists (c : hcfg) (txs : list htx) (q : query),
-    validate c q = true /\
-    find_latest c (run_log c txs) 0 q = FlOk [1] /\
-    find_latest_spec c (run_log c txs) 0 q = [].
-Proof. exact C17Proofs.find_latest_doc_refuted_unrecorded_lemma. Qed.
-Print Assumptions find_latest_doc_refuted_unrecorded.
-
-(* ... it holds on every store that is linked for the query's Activated /
-   Deactivated states (Spec.C17.linked_act / linked_deact: the previous stored
-   record shows the state as it was when the record's own transition began) *)
-Theorem find_latest_doc_partial :
-  forall (c : hcfg) (db : list hrec) (limit : Z) (q : query),
-    log_wf c db -> validate c q = true -> mtime_wf q = true ->
-    length (t_mstates (q_start q)) <= 1 ->
-    (forall i r, nth_error db i = Some r -> linked_for c q (older_of db i) r = true) ->
-    find_latest c db limit q = FlOk (find_latest_spec c db limit q).
-Proof. exact C17Proofs.find_latest_doc_partial_lemma. Qed.
-Print Assumptions find_latest_doc_partial.
-
-(* the hypothesis is met - for Active / Activated / Inactive conditions - by
-   the complete, unrotated history of states that start inactive: every
-   transition recorded (no Called/Changed list or rejected transition leaves
-   one out), each starting where the previous one ended, at most MaxRecords of
-   them.  (Deactivated stays excluded: the first record, theorem
-   find_latest_doc_refuted.) *)
-Theorem find_latest_doc_full_history :
-  forall (c : hcfg) (txs : list htx) (init : list N) (limit : Z) (q : query),
-    1 <= c_max c -> length txs <= c_max c ->
-    (forall tx, In tx txs -> matches c tx = true) ->
-    chained init txs ->
-    (forall s, In s (c_tracked c) -> N.odd (tick init s) = false) ->
-    validate c q = true -> mtime_wf q = true -> length (t_mstates (q_start q)) <= 1 ->
-    q_deactivated q = [] ->
-    find_latest c (run_log c txs) limit q = FlOk (find_latest_spec c (run_log c txs) limit q).
-Proof. exact C17Proofs.find_latest_doc_full_history_lemma. Qed.
-Print Assumptions find_latest_doc_full_history.
-
-(* in particular without state conditions *)
-Theorem find_latest_time_spec :
-  forall (c : hcfg) (db : list hrec) (limit : Z) (q : query),
-    log_wf c db -> validate c q = true ->
-    states_free q = true -> mtime_wf q = true ->
-    length (t_mstates (q_start q)) <= 1 ->
-    find_latest c db limit q = FlOk (find_latest_spec c db limit q).
-Proof. exact C17Proofs.find_latest_time_spec_lemma. Qed.
-Print Assumptions find_latest_time_spec.
 
 (* FALSE (2:206): the hypothesis on the machine-time range cannot be dropped -
    over several states it is not a per-state range *)
@@ -271,14 +241,22 @@ Print Assumptions find_latest_mtime_refuted.
 (* the helpers answer exactly "the state is tracked and some stored record
    with HTime within [hs,he] satisfies the state condition" - never a panic.
    (Before eab91e0: true as soon as ANY record lay in the window, and a panic
-   for InactiveBetween: corpus/C17/between_ignores_state.json.) *)
+   for InactiveBetween; before 3ac5b4b Activated/Deactivated against the
+   previous stored record: corpus/C17/between_ignores_state.json,
+   deactivated_oldest_record.json.) *)
+Theorem between_exact :
+  forall (c : hcfg) (db : list hrec) (kind : N) (s : nat) (hs he : N),
+    log_wf c db -> (kind < 4)%N ->
+    between c db kind s hs he = Some (between_spec c db kind s hs he).
+Proof. exact C17Proofs.between_exact_lemma. Qed.
+Print Assumptions between_exact.
+
 Theorem activated_between_spec :
   forall (c : hcfg) (db : list hrec) (s : nat) (hs he : N),
     log_wf c db ->
     between c db 0 s hs he =
       Some (is_tracked c s &&
-            exists_with_older (fun r older => rel_activated c r older s
-                                              && in_range hs he (r_htime r)) None db).
+            existsb (fun r => st_activated c r s && in_range hs he (r_htime r)) db).
 Proof. exact C17Proofs.activated_between_lemma. Qed.
 Print Assumptions activated_between_spec.
 
@@ -296,8 +274,7 @@ Theorem deactivated_between_spec :
     log_wf c db ->
     between c db 2 s hs he =
       Some (is_tracked c s &&
-            exists_with_older (fun r older => rel_deactivated c r older s
-                                              && in_range hs he (r_htime r)) None db).
+            existsb (fun r => st_deactivated c r s && in_range hs he (r_htime r)) db).
 Proof. exact C17Proofs.deactivated_between_lemma. Qed.
 Print Assumptions deactivated_between_spec.
 
@@ -309,29 +286,6 @@ Theorem inactive_between_spec :
             existsb (fun r => st_inactive c r s && in_range hs he (r_htime r)) db).
 Proof. exact C17Proofs.inactive_between_lemma. Qed.
 Print Assumptions inactive_between_spec.
-
-(* FALSE: forall ..., between c db kind s hs he = Some (between_spec c db kind s hs he)
-   with "activated / deactivated during the transition" (as for FindLatest):
-   DeactivatedBetween Sc over the instant of the first record is true although
-   Sc was never active *)
-Theorem between_doc_refuted :
-  exists (c : hcfg) (txs : list htx) (s : nat) (hs he : N),
-    between c (run_log c txs) 2 s hs he = Some true /\
-    between_spec c (run_log c txs) 2 s hs he = false.
-Proof. exact C17Proofs.between_doc_refuted_lemma. Qed.
-Print Assumptions between_doc_refuted.
-
-(* ... it holds for ActiveBetween / InactiveBetween outright and for the other
-   two on every store linked for the state *)
-Theorem between_doc_partial :
-  forall (c : hcfg) (db : list hrec) (kind : N) (s : nat) (hs he : N),
-    log_wf c db -> (kind < 4)%N ->
-    (kind = 1%N \/ kind = 3%N \/
-     forall i r, nth_error db i = Some r ->
-       (if (kind =? 0)%N then linked_act else linked_deact) c (older_of db i) r s = true) ->
-    between c db kind s hs he = Some (between_spec c db kind s hs he).
-Proof. exact C17Proofs.between_doc_partial_lemma. Qed.
-Print Assumptions between_doc_partial.
 
 (* ---------------------------------------------------------------- Export / Import *)
 
@@ -406,14 +360,46 @@ Example state_conditions_nonvacuous :
   let c2 := C17Proofs.w_cfg [2] in
   find_latest c db 0 (C17Proofs.w_query [0] [] [] []) = FlOk [2; 1; 0] /\
   find_latest c db 0 (C17Proofs.w_query [] [2] [] []) = FlOk [2] /\
+  find_latest c db 0 (C17Proofs.w_query [] [0] [] []) = FlOk [0] /\
   find_latest c db 0 (C17Proofs.w_query [] [] [0] []) = FlOk [4; 3] /\
   find_latest c db 0 (C17Proofs.w_query [] [] [] [0]) = FlOk [3] /\
+  (* Sc was never active: not deactivated by the first record either *)
+  find_latest c db 0 (C17Proofs.w_query [] [] [] [2]) = FlOk [] /\
   find_latest c db 0 (C17Proofs.w_query [2] [] [0] []) = FlOk [4; 3] /\
   find_latest c db 1 (C17Proofs.w_query [0] [] [] []) = FlOk [2] /\
   (* Inactive on a state whose machine index (2) is >= the number of tracked states (1) *)
   find_latest c2 (run_log c2 C17Proofs.w_txs) 0 (C17Proofs.w_query [] [] [2] []) = FlOk [1; 0] /\
   (* an untracked state is an error *)
   find_latest c2 (run_log c2 C17Proofs.w_txs) 0 (C17Proofs.w_query [] [] [0] []) = FlErr.
+Proof. vm_compute. repeat split; reflexivity. Qed.
+
+(* the oldest stored record after a rotation, and records around unrecorded
+   transitions, are judged by their own transition *)
+Example own_transition_nonvacuous :
+  let c := {| c_called := []; c_called_excl := false; c_changed := []; c_changed_excl := false;
+              c_rejected := false; c_store_tx := false; c_tracked := [0; 1; 2]; c_max := 2 |} in
+  let db := run_log c (firstn 3 C17Proofs.w_txs) in
+  let c' := C17Proofs.w_cfg_changed in
+  let db' := run_log c' C17Proofs.w_txs_unrec in
+  length db = 2 /\
+  find_latest c db 0 (C17Proofs.w_query [] [0] [] []) = FlOk [] /\
+  find_latest c db 0 (C17Proofs.w_query [] [1] [] []) = FlOk [0] /\
+  length db' = 4 /\
+  find_latest c' db' 0 (C17Proofs.w_query [0] [] [] []) = FlOk [2; 1] /\
+  find_latest c' db' 0 (C17Proofs.w_query [] [0] [] []) = FlOk [] /\
+  find_latest c' db' 0 (C17Proofs.w_query [] [] [] [0]) = FlOk [] /\
+  find_latest c' db' 0 (C17Proofs.w_query [] [1] [] []) = FlOk [2; 0].
+Proof. vm_compute. repeat split; reflexivity. Qed.
+
+(* a Multi state re-entered in one transition (tick 1 -> 3): Active, not Activated *)
+Example multi_reentry_nonvacuous :
+  let c := C17Proofs.w_cfg [0] in
+  let db := run_log c C17Proofs.w_txs_multi in
+  map r_tracked_diff db = [[1]; [2]; [1]]%N /\
+  find_latest c db 0 (C17Proofs.w_query [0] [] [] []) = FlOk [1; 0] /\
+  find_latest c db 0 (C17Proofs.w_query [] [0] [] []) = FlOk [0] /\
+  find_latest c db 0 (C17Proofs.w_query [] [] [] [0]) = FlOk [2] /\
+  between c db 0 0 2 2 = Some false /\ between c db 1 0 2 2 = Some true.
 Proof. vm_compute. repeat split; reflexivity. Qed.
 
 (* the helpers answer true and false on windows that contain records *)
@@ -426,31 +412,9 @@ Example between_nonvacuous :
   between c db 1 2 3 5 = Some true /\ between c db 1 2 1 2 = Some false /\
   between c db 2 0 4 4 = Some true /\ between c db 2 0 5 5 = Some false /\
   between c db 2 0 1 3 = Some false /\
+  (* Sc was never active: not deactivated within the first record's instant *)
+  between c db 2 2 1 1 = Some false /\
   between c db 3 0 4 5 = Some true /\ between c db 3 0 1 3 = Some false /\
   between c2 (run_log c2 C17Proofs.w_txs) 3 2 1 2 = Some true /\
   between c db 1 1 1 5 = Some false (* Sb is not tracked *).
 Proof. vm_compute. repeat split; reflexivity. Qed.
-
-(* a store that is linked for a query with Activated and Deactivated states *)
-Example doc_partial_nonvacuous :
-  let c := C17Proofs.w_cfg [0; 2] in
-  let db := run_log c C17Proofs.w_txs in
-  let q := C17Proofs.w_query [] [2] [] [0] in
-  let q2 := C17Proofs.w_query [] [0; 2] [] [] in
-  forallb (fun i => match nth_error db i with
-                    | Some r => linked_for c q (older_of db i) r && linked_for c q2 (older_of db i) r
-                    | None => false end) (seq 0 (length db)) = true /\
-  find_latest c db 0 (C17Proofs.w_query [] [] [] [0]) = FlOk [3] /\
-  find_latest_spec c db 0 (C17Proofs.w_query [] [] [] [0]) = [3] /\
-  find_latest c db 0 (C17Proofs.w_query [] [0] [] []) = FlOk [0] /\
-  find_latest_spec c db 0 (C17Proofs.w_query [] [0] [] []) = [0].
-Proof. vm_compute. repeat split; reflexivity. Qed.
-
-(* the five-transition history is complete, chained and starts inactive *)
-Example full_history_nonvacuous :
-  let c := C17Proofs.w_cfg [0; 2] in
-  chained [0; 0; 0; 0]%N C17Proofs.w_txs /\
-  forallb (matches c) C17Proofs.w_txs = true /\
-  length C17Proofs.w_txs <= c_max c /\
-  find_latest c (run_log c C17Proofs.w_txs) 0 (C17Proofs.w_query [0] [2] [] []) = FlOk [2].
-Proof. cbn [chained C17Proofs.w_txs]. repeat split; vm_compute; try reflexivity; repeat constructor. Qed.
